@@ -103,7 +103,7 @@ func genB64(o *Out, tier string, r *Rng) {
 	}
 	n := 600
 	if thorough {
-		n = 40000
+		n = 25000
 	}
 	for i := 0; i < n; i++ {
 		k := r.Intn(40)
